@@ -64,6 +64,7 @@ class Ctx:
         self.samples = []
         self.notes = []
         self.t0 = time.time()
+        self.c0 = time.process_time()
         self._vio_per_sig = {}
         self.only_case = None
 
@@ -126,7 +127,11 @@ class Ctx:
         self.violations.append(w)
 
     def elapsed(self):
-        return time.time() - self.t0
+        """Budget clock: the worker's own CPU time, so that a loaded machine does not shrink the
+        workload (wall time is the cap: never less than a quarter of it, never more than it)."""
+        wall = time.time() - self.t0
+        cpu = time.process_time() - self.c0
+        return min(wall, max(cpu, wall / 4.0))
 
     def summary(self):
         return {
